@@ -115,6 +115,9 @@ theorem step_out_is_events (cfg : Cfg) (s : State) (st : Step) (sid : Nat) :
     by_cases hj : sid = sid'
     · subst hj; simp [flushStepS_out _ _ sid]
     · simp [upd_other _ _ hj, evBytes_evFlush_ne hj]
+  | ioCloseCb sid' =>
+    simp only [step]
+    split <;> simp [evBytes]
   | fence n =>
     simp [step, wake_out, evBytes]
 
@@ -126,6 +129,7 @@ theorem evBytes_append (sid : Nat) (a b : List Ev) : evBytes sid (a ++ b) = evBy
     | recvRet j q => cases q <;> simp [evBytes, ih]
     | cbData j d => simp [evBytes, ih]
     | modeRet j o => simp [evBytes, ih]
+    | closeCb j => simp [evBytes, ih]
 
 theorem run_out_is_events (cfg : Cfg) (sid : Nat) : ∀ (steps : List Step) (s : State),
     ((run cfg s steps).1.sess sid).out = (s.sess sid).out ++ evBytes sid (run cfg s steps).2 := by
@@ -274,6 +278,11 @@ theorem step_inv2 {cfg : Cfg} {s : State} (hi : Inv s) (h : Inv2 s) (st : Step) 
     by_cases hj : j = sid
     · subst hj; simpa using flushStepS_g2 (h j)
     · simpa [upd_other _ _ hj] using h j
+  | ioCloseCb sid =>
+    simp only [step]
+    split
+    · intro j; exact h j
+    · exact h
   | fence n =>
     simp only [step]
     intro j
@@ -382,6 +391,8 @@ theorem peerClosed_no_gap {cfg : Cfg} {s : State} (h2 : Inv2 s) (hsh : s.shuttin
   | flushStep sid' =>
     simp only [step] at hev
     cases hr : (flushStepS s.shuttingDown (s.sess sid')).2 <;> simp [hr, evFlush] at hev
+  | ioCloseCb sid' =>
+    simp only [step] at hev; split at hev <;> simp at hev
   | fence n => simp [step] at hev
 
 
@@ -438,6 +449,8 @@ theorem step_timeout_consumes_nothing (cfg : Cfg) (s : State) (st : Step) (sid :
   | flushStep sid' =>
     simp only [step] at hev
     cases hr : (flushStepS s.shuttingDown (s.sess sid')).2 <;> simp [hr, evFlush] at hev
+  | ioCloseCb sid' =>
+    simp only [step] at hev; split at hev <;> simp at hev
   | fence n => simp [step] at hev
 
 end Iora.SyncRecv
